@@ -203,6 +203,11 @@ def cases(tier, seed, args):
         for i in range(4 if q else 16):
             out.append(dict(t='inlinepaf', K=2 + i % 2, T=[1500, 2500, 3001, 4100][i % 4], F=2, seed=int(rng.integers(1 << 30)), outlier=False,
                             comb=[2, 3, 4, 5][i % 4]))
+        # the E-steps of hooked integration-model fits with the built-in alignment and unequal stream weights
+        for i in range(4 if q else 16):
+            out.append(dict(t='inlinepaf_model', kind=['vmfcacgmm', 'gcacgmm'][i % 2], K=2 + (i // 2) % 2, F=2 + i % 2, N=int(rng.integers(10, 16)), D=3, E=3,
+                            seed=int(rng.integers(1 << 30)), sw=[0.25, 2.0, 0.5, 3.0][i % 4], ew=[2.0, 0.25, 3.0, 0.2][i % 4],
+                            wca=[(-1,), (-3,), (-3, -1)][i % 3]))
     if prop == 'C09':
         n = 70 if q else 700
         for i in range(n):
@@ -505,6 +510,54 @@ def run_case(case):
         return domain_case(case)
     if t == 'domain_single':
         return domain_single(case)
+    if t == 'inlinepaf_model':
+        import itertools as _it
+        from pb_bss.utils import unsqueeze
+        rng = np.random.default_rng(case['seed'])
+        kind, K, F, N = case['kind'], case['K'], case['F'], case['N']
+        data = ml.make_data(rng, kind, [F], K, case['D'], N, regime='separable', E=case['E'])
+        # spatial classes scrambled per bin relative to the spectral ones
+        init = ml.make_init(rng, [F], K, N, style='soft')
+        opts = dict(weight_constant_axis=tuple(case['wca']), spatial_weight=case['sw'], spectral_weight=case['ew'],
+                    inline_permutation_alignment=True, affiliation_eps=0.0)
+        events = []
+
+        def cb(event, f):
+            if event == 'estep' and f.get('model') is not None:
+                events.append((f['model'], np.array(f['affiliation'], copy=True)))
+        _verif.register(cb)
+        try:
+            model, exc = call(ml.fit, kind, data, init, 3, opts)
+        finally:
+            _verif.unregister(cb)
+        fp = f'fn=inline_pa_integration;model={kind};wca={case["wca"]};weights=({case["sw"]},{case["ew"]})'
+        if model is None:
+            return [dict(kind='inlinepaf', Q=[], chosen=[], exc=exc, fp=fp, key=f'ipam:{case["seed"]}')]
+        recs = []
+        perms = list(_it.permutations(range(K)))
+        yn = ml.unit(data['y'])
+        emb = ml.unit(data['emb']) if kind == 'vmfcacgmm' else data['emb']
+        for ei, (m, aff) in enumerate(events[:2]):
+            clp, _ = m.cacg._log_pdf(np.swapaxes(yn[..., None, :, :], -1, -2))                  # (F, K, N)
+            spec = m.vmf if kind == 'vmfcacgmm' else m.gaussian
+            slp = spec.log_pdf(np.reshape(emb, (1, F * N, -1)))
+            slp = np.transpose(np.reshape(slp, (K, F, N)), (1, 0, 2))
+            sp, se = m.spatial_weight * clp, m.spectral_weight * slp
+            w = np.broadcast_to(unsqueeze(m.weight, m.weight_constant_axis), (F, K, N)) if np.ndim(m.weight) else np.full((F, K, N), float(m.weight))
+            for f in range(F):
+                Q, chosen = [], []
+                for pi_, p in enumerate(perms):
+                    lp0 = sp[f, list(p), :] + se[f]
+                    g = np.exp(lp0 - lp0.max(0, keepdims=True))
+                    g = g / g.sum(0, keepdims=True)
+                    Q.append(float(np.sum(g * lp0)))
+                    lp = lp0 + np.log(w[f])
+                    mx = lp.max(0, keepdims=True)
+                    post = np.exp(lp - (mx[0] + np.log(np.exp(lp - mx).sum(0)))[None])
+                    if np.allclose(aff[f], post, rtol=1e-8, atol=1e-11):
+                        chosen.append(pi_ + 1)
+                recs.append(dict(kind='inlinepaf', Q=[enc.flt(x) for x in Q], chosen=chosen, exc='', fp=fp, key=f'ipam:{case["seed"]}:{ei}:{f}'))
+        return recs
     if t == 'inlinepaf':
         # float problems with frames on very different likelihood scales: the criterion of every permutation is evaluated here
         # with a per-frame stable logsumexp (NumPy, trusted), the trace specification decides optimality
